@@ -293,3 +293,14 @@ func (p *Prog) Decl(fn *ssa.Function) (*ast.FuncDecl, *packages.Package) {
 	}
 	return d, p.ByPath[pk.Path()]
 }
+
+// Sizes is the type-size model of the loaded build configuration (word size of
+// int/uint follows GOARCH of the load).
+func (p *Prog) Sizes() types.Sizes {
+	for _, pk := range p.Pkgs {
+		if pk.TypesSizes != nil {
+			return pk.TypesSizes
+		}
+	}
+	return types.SizesFor("gc", "amd64")
+}
